@@ -20,8 +20,8 @@ func init() {
 			"the sink is append-only (checked by C05), so what survives a crash of the recorder is a byte prefix",
 			"completeness bound uses refmcap's record boundaries",
 		},
-		batches: map[string]int{"quick": 64, "thorough": 96},
-		checks:  map[string]int{"quick": 4, "thorough": 12},
+		batches: map[string]int{"quick": 48, "thorough": 96},
+		checks:  map[string]int{"quick": 3, "thorough": 12},
 	}})
 }
 
